@@ -86,7 +86,7 @@ func (s *Sim) opRelayHostile() {
 			s.opRelay()
 			return
 		}
-		r := s.Credited[s.R.Intn(len(s.Credited))]
+		r := s.pickCredited()
 		batch := []*pairingtypes.RelaySession{cloneSession(r)}
 		if kind == 2 { // mixed with a fresh valid session of the same provider: the whole tx must fail or credit only the new one
 			if dev, ok := s.devFor(s.signerOf(r)); ok {
@@ -100,7 +100,7 @@ func (s *Sim) opRelayHostile() {
 		if len(s.Credited) == 0 {
 			return
 		}
-		r := cloneSession(s.Credited[s.R.Intn(len(s.Credited))])
+		r := cloneSession(s.pickCredited())
 		dev, ok := s.devFor(s.signerOf(r))
 		if !ok {
 			return
@@ -306,4 +306,22 @@ func (s *Sim) opBadgeRelay() {
 		signSession(bi.user, rs)
 	}
 	s.sendRelays("relay_badge", prov, []*pairingtypes.RelaySession{rs}, fmt.Sprintf("prov=%s badge_user=%s alloc=%d badge_epoch=%d cu=%d variant=%d", short(prov), short(bi.user.Addr.String()), bi.badge.CuAllocation, bi.badge.Epoch, cu, variant))
+}
+
+// pickCredited picks an already credited session to replay: two times in three one whose epoch is still in the chain's
+// memory (only those are stopped by the double-spend record rather than by the epoch check), otherwise any.
+func (s *Sim) pickCredited() *pairingtypes.RelaySession {
+	if s.R.Intn(3) != 0 {
+		earliest := int64(s.TS.Keepers.Epochstorage.GetEarliestEpochStart(s.TS.Ctx))
+		var inMem []*pairingtypes.RelaySession
+		for _, r := range s.Credited {
+			if r.Epoch >= earliest {
+				inMem = append(inMem, r)
+			}
+		}
+		if len(inMem) > 0 {
+			return inMem[s.R.Intn(len(inMem))]
+		}
+	}
+	return s.Credited[s.R.Intn(len(s.Credited))]
 }
